@@ -114,6 +114,9 @@ class Budget(Family):
         else:
             ex.assume(z3.Implies(L.exc_is_sub(info['raised'], 'OpsExecutionLimitExceededError'),
                                  ops(ex.heap) >= max_ops(ex.heap)))
+            # TSI-2b: a budget exhausted inside the call leaves it as the limit error, whatever is in between
+            ex.assume(z3.Implies(z3.And(ops(pre) < max_ops(pre), ops(ex.heap) >= max_ops(ex.heap)),
+                                 L.exc_is_sub(info['raised'], 'OpsExecutionLimitExceededError')))
 
     def on_event(self, ex, ev):
         kind = ev[0]
@@ -144,6 +147,10 @@ class Budget(Family):
         if tag == 'return':
             ex.prove('C01:%s:below-limit-on-return' % fname(ex), ['C01'],
                      z3.Implies(self.entry_ops < max_ops(ex.heap), ops(ex.heap) < max_ops(ex.heap)))
+        if tag == 'raise':
+            ex.prove('C01:%s:exhausted-budget-leaves-as-the-limit-error' % fname(ex), ['C01', 'C16'],
+                     z3.Implies(z3.And(self.entry_ops < max_ops(ex.heap), ops(ex.heap) >= max_ops(ex.heap)),
+                                L.exc_is_sub(outcome[1], 'OpsExecutionLimitExceededError')))
         if self.role == 'op_override':
             ex.prove('C01:%s:charged-exactly-once[%s]' % (fname(ex), tag), ['C01', 'C07'], self.super_calls == 1,
                      {'super_calls': self.super_calls})
@@ -333,8 +340,9 @@ class Values(Family):
         elif kind == 'unknown_call':
             fn = fname(ex)
             ex.prove('C02:%s:no-unmodelled-call[%s]' % (fn, ev[1]), ['C02'], False, {'call': ev[1]})
-            if self.role == 'builtin' and self.is_mutator is False:
-                ex.prove('C13:%s:no-unmodelled-call[%s]' % (fn, ev[1]), ['C13'], False, {'call': ev[1]})
+            if (self.role == 'builtin' and self.is_mutator is False) or self.role in ('op_override', 'closure'):
+                # code without a contract or stub may change any container it can reach
+                ex.prove('C13:%s:no-unmodelled-call[%s]' % (fn, ev[1]), ['C13', 'C12', 'C14'], False, {'call': ev[1]})
         elif kind == 'forbidden_call':
             ex.prove('C02:%s:no-io-or-dynamic-code[%s]' % (fname(ex), ev[1]), ['C02'], False, {'call': ev[1]})
         elif kind == 'field_write':
